@@ -11,8 +11,8 @@ try:
     for name, text in hist.items():
         sdir = os.path.join(HERE, 'seeded', name)
         prop = name[:3]
-        subprocess.run('git checkout -q -- . && git clean -fdq', shell=True, cwd=wt)
-        if subprocess.run('git apply %s' % os.path.join(sdir, 'patch.diff'), shell=True, cwd=wt).returncode != 0:
+        subprocess.run('git reset -q --hard && git clean -fdq', shell=True, cwd=wt)
+        if subprocess.run('git apply %s 2>/dev/null || (git reset -q --hard && git apply --3way %s)' % ((os.path.join(sdir, 'patch.diff'),) * 2), shell=True, cwd=wt).returncode != 0:
             print('PATCH DOES NOT APPLY', name)
             continue
         p = subprocess.run([sys.executable, os.path.join(HERE, 'vcheck.py'), prop, '--tier', 'quick', '--no-evidence'], cwd=HERE, env=dict(os.environ, PRYSM_REPO=wt),
